@@ -150,6 +150,10 @@ def r2_tail_size(cx):
         if cv is not None:
             cx.ob("R2", key, cv <= limit, f, "SizedOffset size is the constant %s" % cv, ln=ln)
             continue
+        # (a') the size of another SizedOffset, carried over unchanged (a position re-expressed relative to another origin)
+        if _is_size_of_sized_offset(b, size_op):
+            cx.ob("R2", key, True, f, "SizedOffset size is the size field of an existing SizedOffset, copied unchanged", ln=ln, trivial=True)
+            continue
         # (b) guard: a comparison of a length with a constant <= 0xFFFF dominating the site whose failing arm does not reach it
         guard = _guarded(b, bb, limit)
         if guard:
@@ -159,6 +163,20 @@ def r2_tail_size(cx):
         bound = _layout_bound(F, f, b, size_op)
         cx.ob("R2", key, bound is not None and bound[0] <= limit, f,
               "tail size must fit 16 bits: no constant, no guard; layout bound = %s" % (("%d bytes (%s)" % bound) if bound else "unbounded / unknown"), ln=ln)
+
+
+def _is_size_of_sized_offset(b, op, depth=0):
+    pl = op_place(op)
+    if pl is None or depth > 6:
+        return False
+    pr = [e for e in pl.get("p", []) if e != "*"]
+    if pr:
+        e = pr[-1]
+        return isinstance(e, dict) and e.get("n") == "size" and str(e.get("of", "")).endswith("SizedOffset")
+    ds = b.defs().get(pl["l"], [])
+    if len(ds) != 1 or ds[0][0] != "stmt" or ds[0][3]["k"] != "assign" or ds[0][3]["lhs"].get("p") or ds[0][3]["rv"]["k"] != "use":
+        return False
+    return _is_size_of_sized_offset(b, ds[0][3]["rv"]["op"], depth + 1)
 
 
 def _guarded(b, site, limit):
@@ -634,6 +652,95 @@ def r9_dedup_index(cx):
           "the index of an already stored value is position(..)/position_any(..) taken directly over (par_)iter() of the whole data vector (offending adapters %s; other sources of the returned index %s)" % (bad, [u.split("::")[-1] for u in unknown]))
 
 
+INLINE_BITS = 5   # spec/directory.rst, array property: `key size << 5 | length of the inline part`
+
+
+def _agg_sites(F, adt_re, variant, field, scope_re):
+    """(function, body, block, operand) of every construction `adt::variant { field: operand, .. }` in live functions"""
+    out = []
+    for f in F.live_fns:
+        if "blocks" not in f or not re.search(scope_re, f["name"]):
+            continue
+        b = None
+        for i, blk in enumerate(f["blocks"]):
+            if blk.get("cleanup"):
+                continue
+            for st in blk["s"]:
+                rv = st.get("rv") or {}
+                if st["k"] == "assign" and rv.get("k") == "agg" and rv.get("variant") == variant and re.search(adt_re, rv.get("adt") or "") and field in (rv.get("fnames") or []):
+                    b = b or F.body(f)
+                    out.append((f, b, i, rv["fields"][rv["fnames"].index(field)]))
+    return out
+
+
+def r12_inline_prefix_fits(cx):
+    """'a value that cannot be represented makes creation fail': the inline part of an array is described on 5 bits
+    next to the 3 bits of the key size (`key_size << 5 + fixed_array_len`). Somewhere between the public constructor
+    and the byte written, the length is compared with a constant no larger than 31 on the only path that goes on:
+    either wherever a schema `Property::Array` is built, or where the schema is turned into a layout, or where the
+    byte is composed."""
+    F = cx.F
+    limit = (1 << INLINE_BITS) - 1
+
+    def guarded(sites):
+        res = []
+        for f, b, i, opnd in sites:
+            srcs = {x for x in b.origins(opnd) if x[0] in ("call", "field", "param")}
+            best = min((c for _, c in upper_bound_guards(b, i, srcs)), default=None)
+            res.append((f, best))
+        return res
+    a = guarded(_agg_sites(F, r"schema::property::Property$", "Array", "fixed_array_len", r"creator::"))
+    l = guarded(_agg_sites(F, r"layout::property::Property$", "Array", "fixed_array_len", r"creator::directory_pack::schema::"))
+    ser = layout.find_ser(F, "creator::directory_pack::layout::property::Property")
+    sb = F.body(ser)
+    w = []
+    for i, blk in enumerate(sb.blocks):
+        if blk.get("cleanup"):
+            continue
+        for st in blk["s"]:
+            rv = st.get("rv") or {}
+            if st["k"] == "assign" and rv.get("k") == "bin" and rv["op"] in ("Add", "AddWithOverflow", "BitOr") and ("field", "fixed_array_len") in (sb.origins(rv["a"]) | sb.origins(rv["b"])):
+                srcs = {("field", "fixed_array_len")}
+                w.append((ser, min((c for _, c in upper_bound_guards(sb, i, srcs)), default=None)))
+    if not a or not l or not w:
+        raise AnchorLost("array property: schema constructions %d, layout constructions %d, key byte compositions %d" % (len(a), len(l), len(w)))
+    ok = lambda xs: all(c is not None and c <= limit for _, c in xs)
+    where = "at construction" if ok(a) else "at schema -> layout" if ok(l) else "at serialisation" if ok(w) else None
+    cx.ob("R12", "R12/array/inline-prefix-fits-5-bits", where is not None, a[0][0],
+          "the length of the inline part of an array is bounded by %d before it is packed next to the key size (%s; bounds found: construction %s, layout %s, serialisation %s)" % (
+              limit, where or "nowhere", [c for _, c in a], [c for _, c in l], [c for _, c in w]))
+
+
+def r13_compare_ties_are_equal(cx):
+    """entries are sorted with FullEntryTrait::compare and the result is checked with `windows(2).all(is_le)`: two
+    entries equal on every sort key (duplicates are representable entries) must compare Equal -- under the assumption
+    that every key compares Equal, the only value the function can return is Ordering::Equal (anything else is
+    inconsistent with itself, compare(a, b) = compare(b, a) = Greater, and the sorted check can never succeed)"""
+    F = cx.F
+    fs = [f for f in F.live_fns if re.search(r"creator::directory_pack::FullEntryTrait::compare$", f["name"]) and "blocks" in f]
+    if len(fs) != 1:
+        raise AnchorLost("FullEntryTrait::compare: %d bodies" % len(fs))
+    f = fs[0]
+    b = F.body(f)
+    r, _ = b.explore(assume_discr={r"cmp::Ordering$": 0, r"Option<std::cmp::Ordering>$": 1}, avoid=b.error_blocks())
+    rets = []
+    for i in sorted(r):
+        for st in b.blocks[i]["s"]:
+            rv = st.get("rv") or {}
+            if st["k"] == "assign" and st["lhs"]["l"] == 0 and not st["lhs"].get("p"):
+                if rv.get("k") == "agg" and (rv.get("adt") or "").endswith("cmp::Ordering"):
+                    rets.append(rv.get("variant"))
+                elif rv.get("k") == "use" and op_const(rv["op"]) is not None:
+                    rets.append(str(op_const(rv["op"]).get("val", op_const(rv["op"]).get("cdef"))))
+                else:
+                    rets.append("computed")
+    if not rets:
+        raise AnchorLost("FullEntryTrait::compare: no return value found on the all-keys-equal paths")
+    good = all(x in ("Equal", "0") or x == "computed" for x in rets) and any(x in ("Equal", "0") for x in rets)
+    cx.ob("R13", "R13/compare/ties-are-equal", good, f,
+          "when every sort key compares Equal the comparison returns Equal (values returned on those paths: %s)" % sorted(set(rets)))
+
+
 RULES = [
     ("R1", r1_signed_width, 3),
     ("R1", r1b_fold_does_not_wrap, 1),
@@ -647,4 +754,6 @@ RULES = [
     ("R9", r9_dedup_index, 1),
     ("R10", r10_reader_offsets, 2),
     ("R11", r11_variant_end_agrees, 3),
+    ("R12", r12_inline_prefix_fits, 1),
+    ("R13", r13_compare_ties_are_equal, 1),
 ]
